@@ -149,6 +149,20 @@ def g_c03(tier, seed):
                 samples=["coupling_flow(invert=True, cond_dim=3) perturbed"], failures=fails[:5], errors=[])
 
 
+def _shape_grid(pid):
+    def g(tier, seed):
+        cnt = []
+        fails = rt.rt_shapes_grid(count=cnt)
+        return dict(evaluations=cnt[0] if cnt else 0, distinct_nontrivial=cnt[0] if cnt else 0,
+                    rule="real Stack / Concatenate / Vmap / Reshape on an exhaustive small lattice: child ranks 0-3, EVERY valid axis incl. negative ones, cond ranks 0-2, rank-0 reshape targets; declared shape vs jnp.stack/jnp.concatenate/vmap semantics and all four methods called with inputs of the declared shapes",
+                    samples=[dict(cls="Stack", s0=[2, 3], axis=-1)], failures=fails[:5], errors=[])
+    return g
+
+
+GRIDS["C08"] = _shape_grid("C08")
+GRIDS["C13"] = _shape_grid("C13")
+
+
 def main():
     if len(sys.argv) == 3 and sys.argv[1] == "--c10-batch":
         print(json.dumps(rt.rt_bisection_batch(json.loads(sys.argv[2]))))
